@@ -249,3 +249,36 @@ def rule_sibling_scripts(ctx, rep: Report, rid="Y4"):
     rep.add(rid, "both scripts turn --top_module_namespaces into a list by the same normal form",
             forms["pybind"] == forms["matlab"] and bool(forms["pybind"]) and any(".split('::')" in t for t in forms["pybind"]),
             f"pybind: {forms['pybind']}; matlab: {forms['matlab']}", f"{SCRIPTS['matlab']}:1")
+
+
+
+def rule_source_list_unfiltered(ctx, rep: Report, rid="Y3"):
+    """The list of interface files handed to the library is exactly the --src option split at ';':
+    every file the caller named is wrapped / declared, in the order given."""
+    prog = ctx.prog
+    for which, rel in SCRIPTS.items():
+        mi, opts, ctor, scope = _script_info(ctx, rel)
+        av = _args_var(scope)
+        calls = [c for c in ast.walk(scope) if isinstance(c, ast.Call) and isinstance(c.func, ast.Attribute) and c.func.attr == "wrap"
+                 and c.args]
+        for c in calls:
+            a = c.args[0]
+            ok = False
+            detail = unparse(a)
+            if isinstance(a, ast.Name):
+                defs = [st for st in ast.walk(scope) if isinstance(st, (ast.Assign, ast.AugAssign)) and any(
+                    isinstance(t, ast.Name) and t.id == a.id for t in (st.targets if isinstance(st, ast.Assign) else [st.target]))]
+                vals = [unparse(st.value).replace(" ", "").replace('"', "'") for st in defs]
+                ok = vals == [f"{av}.src.split(';')"]
+                detail = f"{a.id} <- {vals}"
+                # no in-place edits of the list either
+                muts = [m for m in ast.walk(scope) if isinstance(m, ast.Call) and isinstance(m.func, ast.Attribute)
+                        and isinstance(m.func.value, ast.Name) and m.func.value.id == a.id
+                        and m.func.attr in ("remove", "pop", "sort", "reverse", "insert", "append", "extend", "clear")]
+                dels = [d for d in ast.walk(scope) if isinstance(d, (ast.Delete,)) and a.id in unparse(d)]
+                ok = ok and not muts and not dels
+            else:
+                ok = unparse(a).replace(" ", "").replace('"', "'") == f"{av}.src.split(';')"
+            rep.add(rid, f"{which}:the source list passed to wrap() is --src split at ';', unfiltered and in order", ok,
+                    f"{detail}: a file the caller listed can be dropped or re-ordered before the library sees it, so the "
+                    f"script no longer produces what the API produces for the same list", f"{rel}:{c.lineno}")
